@@ -449,7 +449,7 @@ func TestC12(t *testing.T) {
 		}
 		seen[d.id()] = true
 		i++
-		if r.Quick() && i%3 != 0 {
+		if r.Quick() && i%2 != 0 {
 			continue
 		}
 		r.Case("dir/"+d.id(), d, func(c *mon.Case) { checkDirFaults(c, d) })
